@@ -465,6 +465,26 @@ func Run(r *core.Run) {
 				tampered = append(tampered, "did:ion:"+strings.Split(created[o], ":")[2]+":"+state)
 			}
 		}
+		// segment surgery: an extra segment at every boundary (after the namespace, between suffix and state, at the end), segments
+		// duplicated, dropped and swapped; the extra segment is a word, empty, the suffix itself, another document's suffix or the state
+		{
+			otherSuffix := suffix
+			for _, o := range names {
+				if o != n {
+					otherSuffix = strings.Split(created[o], ":")[2]
+					break
+				}
+			}
+			segs := []string{"did", "ion", suffix, state}
+			for _, extra := range []string{"x", "", suffix, otherSuffix, state, "ion", "a:b:c"} {
+				for pos := 1; pos <= len(segs); pos++ {
+					withExtra := append(append(append([]string{}, segs[:pos]...), extra), segs[pos:]...)
+					tampered = append(tampered, strings.Join(withExtra, ":"))
+				}
+			}
+			tampered = append(tampered, strings.Join([]string{"did", "ion", state, suffix}, ":"), strings.Join([]string{"did", "ion", suffix, suffix}, ":"),
+				strings.Join([]string{"did", "ion", state, state}, ":"), strings.Join([]string{"did", "ion", otherSuffix, suffix, state}, ":"), strings.Join([]string{"did", "ion", suffix, otherSuffix, state}, ":"))
+		}
 		var v M
 		_ = json.Unmarshal(raw, &v)
 		enc := base64.RawURLEncoding.EncodeToString
